@@ -509,6 +509,17 @@ pub fn run(run: &Run) {
                 continue;
             }
             let (vx, vy) = (Vector::new(xs(n1)), Vector::new(ys(n2)));
+            // the two-operand reduction rejects operands of different lengths as well
+            for (key, r) in [("dot(slice)", guard(|| linalg::dot(&xs(n1), &ys(n2)))), ("Vector.dot", guard(|| compute::linalg::Dot::dot(&vx, &vy)))] {
+                run.case();
+                run.tr();
+                run.ok();
+                run.nontrivial(1);
+                match r {
+                    Ok(g) => run.violate(&format!("{}/mismatch-accepted", key), || format!("lengths {} and {}: returned {:e}", n1, n2, g)),
+                    Err(_) => run.regime("mismatch-rejected"),
+                }
+            }
             for op in 0..4 {
                 for form in 0..6 {
                     run.case();
